@@ -7,6 +7,7 @@ import (
 	"go/ast"
 	"go/token"
 	"go/types"
+	"math/big"
 	"sort"
 	"strings"
 )
@@ -74,6 +75,7 @@ type Obligation struct {
 }
 
 type Exec struct {
+	ranges       map[*Term][2]*big.Int  // type ranges recorded for terms (bounds)
 	funcLits     map[*Term]*ast.FuncLit // function literals met so far, by the term that names them
 	funcLitOrder []*Term
 	pkgVars      map[*types.Var]Value // evaluated initialisers of package variables that are never assigned
@@ -152,6 +154,105 @@ func (x *Exec) rangeFact(t *Term, T types.Type) {
 	if f := inRange(t, T); f != True {
 		x.addFact(t, f)
 	}
+	if lo, hi, ok := intRange(T); ok {
+		if x.ranges == nil {
+			x.ranges = map[*Term][2]*big.Int{}
+		}
+		if old, seen := x.ranges[t]; seen {
+			// keep the tighter interval
+			if old[0].Cmp(lo) > 0 {
+				lo = old[0]
+			}
+			if old[1].Cmp(hi) < 0 {
+				hi = old[1]
+			}
+		}
+		x.ranges[t] = [2]*big.Int{lo, hi}
+	}
+}
+
+func (x *Exec) noteRange(t *Term, lo, hi *big.Int) {
+	if t == nil || t.IsLit() {
+		return
+	}
+	if x.ranges == nil {
+		x.ranges = map[*Term][2]*big.Int{}
+	}
+	if _, seen := x.ranges[t]; !seen {
+		x.ranges[t] = [2]*big.Int{lo, hi}
+	}
+}
+
+// bounds: a conservative interval for an integer term, from the type ranges recorded for its leaves (structural
+// interval arithmetic; no path conditions).  Used to drop wrap-around cases that cannot happen.
+func (x *Exec) bounds(t *Term, depth int) (lo, hi *big.Int, ok bool) {
+	if t == nil || t.Sort != SInt || depth > 24 {
+		return nil, nil, false
+	}
+	if t.IsLit() {
+		v := t.Big()
+		return v, v, true
+	}
+	if r, seen := x.ranges[t]; seen {
+		return r[0], r[1], true
+	}
+	switch t.Op {
+	case "+", "-", "*":
+		if len(t.Args) != 2 {
+			return nil, nil, false
+		}
+		al, ah, ok1 := x.bounds(t.Args[0], depth+1)
+		bl, bh, ok2 := x.bounds(t.Args[1], depth+1)
+		if !ok1 || !ok2 {
+			return nil, nil, false
+		}
+		switch t.Op {
+		case "+":
+			return new(big.Int).Add(al, bl), new(big.Int).Add(ah, bh), true
+		case "-":
+			return new(big.Int).Sub(al, bh), new(big.Int).Sub(ah, bl), true
+		default:
+			c := []*big.Int{new(big.Int).Mul(al, bl), new(big.Int).Mul(al, bh), new(big.Int).Mul(ah, bl), new(big.Int).Mul(ah, bh)}
+			lo, hi = c[0], c[0]
+			for _, v := range c[1:] {
+				if v.Cmp(lo) < 0 {
+					lo = v
+				}
+				if v.Cmp(hi) > 0 {
+					hi = v
+				}
+			}
+			return lo, hi, true
+		}
+	case "ite":
+		al, ah, ok1 := x.bounds(t.Args[1], depth+1)
+		bl, bh, ok2 := x.bounds(t.Args[2], depth+1)
+		if !ok1 || !ok2 {
+			return nil, nil, false
+		}
+		if bl.Cmp(al) < 0 {
+			al = bl
+		}
+		if bh.Cmp(ah) > 0 {
+			ah = bh
+		}
+		return al, ah, true
+	case "mod":
+		// Euclidean: 0 <= a mod b < |b| for b != 0
+		bl, bh, ok2 := x.bounds(t.Args[1], depth+1)
+		if !ok2 {
+			return nil, nil, false
+		}
+		m := new(big.Int).Abs(bl)
+		if a := new(big.Int).Abs(bh); a.Cmp(m) > 0 {
+			m = a
+		}
+		if m.Sign() == 0 {
+			return nil, nil, false
+		}
+		return big.NewInt(0), new(big.Int).Sub(m, big.NewInt(1)), true
+	}
+	return nil, nil, false
 }
 
 func (x *Exec) pos(p token.Pos) string {
